@@ -103,8 +103,25 @@ func c13Inputs(run *mon.Run) [][]byte {
 
 const c13AllocFactor, c13AllocSlack = 64, 4 << 20
 
-// decodeOnce runs one decode under recover and reports what happened.
+// decodeOnce runs one decode under recover and reports what happened. The decode runs on a goroutine of its own: its
+// stack starts small, so the growth of the stack spans between the two readings is what this input needed. Measured on
+// the long-lived test goroutine the figure was polluted by the runtime shrinking that goroutine's stack some inputs after
+// a deeply nested one (the half-size copy is allocated while the old stack is still accounted for: +8 MiB out of nowhere).
 func c13DecodeOnce(in []byte, stream bool, sizes []int) (status string, alloc uint64) {
+	type res struct {
+		st    string
+		alloc uint64
+	}
+	ch := make(chan res, 1)
+	go func() {
+		st, a := c13DecodeHere(in, stream, sizes)
+		ch <- res{st, a}
+	}()
+	r := <-ch
+	return r.st, r.alloc
+}
+
+func c13DecodeHere(in []byte, stream bool, sizes []int) (status string, alloc uint64) {
 	r := bufio.NewReaderSize(&drv.ChunkReader{Data: in, Sizes: sizes}, 64)
 	var ms0, ms1 runtime.MemStats
 	runtime.ReadMemStats(&ms0)
